@@ -104,6 +104,22 @@ fn c16_game(ctx: &Ctx, l: &mut Local, root: &Pos, path: &[Mv], seed: u64, tagnam
             }
         }
     }
+    // take the whole game back, clocks compared at every level
+    while let Some((prev, em)) = stack.pop() {
+        b.toggle_turn();
+        if let Err(msg) = par::guarded(|| em.undo(&mut b)) { ctx.violation(&format!("c16:counter-overflow:{}", par::last_panic_location()), &format!("undoing ply {} of {} panicked: {}", i, tagname, msg), replay(i)); return; }
+        p = prev; made -= 1; i -= 1;
+        l.inc("undos_tracked");
+        let hc = par::guarded(|| (b.halfmove_clock() as u64, b.fullmove_clock() as u64));
+        match hc {
+            Err(msg) => { ctx.violation(&format!("c16:counter-overflow:{}", par::last_panic_location()), &format!("reading the clocks after undoing back to ply {} of {} panicked: {}", i, tagname, msg), replay(i)); return; }
+            Ok((eh, ef)) => if eh != p.halfmove as u64 || ef != base_counter + made {
+                ctx.violation("c16:counters-wrong-after-undo", &format!("after undoing back to ply {} of {} the clocks read half-move {} / counter {}; expected {} / {}", i, tagname, eh, ef, p.halfmove, base_counter + made), replay(i));
+                return;
+            }
+        }
+    }
+    l.inc("games_unwound_completely");
     l.inc("games_tracked");
     l.set_max("longest_game_plies", path.len() as u64);
     if path.len() >= 2 { l.distinct.push(hash_bytes(path_str(root, path).join(" ").as_bytes())); }
@@ -254,51 +270,103 @@ fn c17_board_game(ctx: &Ctx, l: &mut Local, root: &Pos, path: &[Mv], seed: u64, 
 /// The same game through the Game API (coordinate entry + caller-side toggle): a third
 /// occurrence must be reported as a draw.
 fn c17_game_api(ctx: &Ctx, l: &mut Local, root: &Pos, path: &[Mv], tagname: &str) {
+    let hsh = hash_bytes(path_str(root, path).join(" ").as_bytes());
     // every third game lets the engine's own move entry points make some of the moves (search depth 1)
-    let engine_plays = hash_bytes(path_str(root, path).join(" ").as_bytes()) % 3 == 0;
+    let engine_plays = hsh % 3 == 0;
+    // another third has a front end that takes moves back through the board
+    let takeback = hsh % 3 == 1;
+    // some front ends only ask for the verdict when they notice a recurrence, not at every ply
+    let ask_only_at_recurrences = hsh % 4 == 2;
+    let mut rng = Rng::new(hsh);
     let mut game = Game::from_board(to_engine(root), if engine_plays { 1 } else { 0 });
     let mut p = root.clone();
     let mut multiset: HashMap<PosKey, u32> = HashMap::new();
     multiset.insert(p.key(), 1);
-    for (i, m) in path.iter().enumerate() {
+    let mut played: Vec<Mv> = vec![];       // the moves currently on the board (after take-backs)
+    let mut log: Vec<String> = vec![];      // everything that was done, for the replay file
+    let mut on_script = true;               // still following `path`?
+    let mut free_play_left = 0usize;        // plies of own choice after a take-back
+    let mut i = 0usize;
+    let replay = |log: &Vec<String>, played: &Vec<Mv>| json!({"root_fen": root.to_fen(), "path": path_str(root, played), "what_was_done": log, "game": tagname});
+    let total = path.len() + 40;
+    let mut steps = 0;
+    while steps < total {
+        steps += 1;
         if p.halfmove >= 45 { break; } // stay clear of any move-count draw
-        let mut pm = *m;
-        if engine_plays && i % 4 == 1 && p == crate::bridge::end_of(root, &path[..i]) {
-            // let the engine choose and make this move itself (both engine entry points, alternately)
+        let legal = p.legal_moves();
+        if legal.is_empty() { break; }
+        // ---- choose and make the next move
+        let pm: Mv;
+        if engine_plays && on_script && i % 4 == 1 && i < path.len() {
             let r = par::guarded(|| if i % 8 == 1 { game.make_alpha_beta_best_move() } else { game.make_waterfall_book_then_alpha_beta_move() });
             let mv = match r { Ok(Ok(mv)) => mv, _ => { l.inc("engine_move_failed_(C07/C15_business)"); return; } };
-            pm = match p.legal_moves().into_iter().find(|x| rkey(x) == ekey(&mv)) { Some(x) => x, None => { l.inc("engine_move_not_legal_(C07_business)"); return; } };
+            pm = match legal.iter().find(|x| rkey(x) == ekey(&mv)) { Some(x) => *x, None => { l.inc("engine_move_not_legal_(C07_business)"); return; } };
             l.inc("moves_made_by_the_engine_entry_points");
+            log.push(format!("engine entry point played {}", p.uci(&pm)));
+            i += 1;
         } else {
-            if !p.legal_moves().iter().any(|x| x == m) { break; } // the engine left the scripted path earlier
+            let m: Mv = if free_play_left > 0 {
+                free_play_left -= 1;
+                // own choice: prefer reversible moves that return to positions seen before
+                let mut best: Vec<&Mv> = legal.iter().filter(|x| x.piece != Pc::P && x.captured.is_none() && !matches!(x.kind, Kind::Promo(_) | Kind::PromoCapture(_)) && multiset.get(&p.make(x).key()).copied().unwrap_or(0) > 0).collect();
+                if best.is_empty() { best = legal.iter().filter(|x| x.piece != Pc::P && x.captured.is_none()).collect(); }
+                if best.is_empty() { break; }
+                **rng.pick(&best)
+            } else if i < path.len() && legal.contains(&path[i]) { let m = path[i]; i += 1; m } else { break };
+            if matches!(m.kind, Kind::Promo(x) | Kind::PromoCapture(x) if x != Pc::Q) { break; } // coordinate entry promotes to a queen
             if !matches!(par::guarded(|| game.apply_chess_move_by_from_to_coordinates(bb(m.from), bb(m.to))), Ok(Ok(_))) { l.inc("game_api_move_rejected_(C14_business)"); return; }
-            // coordinate entry promotes to a queen
-            pm = match m.kind { Kind::Promo(_) => Mv { kind: Kind::Promo(Pc::Q), ..*m }, Kind::PromoCapture(_) => Mv { kind: Kind::PromoCapture(Pc::Q), ..*m }, _ => *m };
-            if pm != *m { break; }
+            pm = m;
+            log.push(format!("entered {}", p.uci(&pm)));
         }
         game.board_mut().toggle_turn();
+        let before = p.clone();
         p = p.make(&pm);
+        played.push(pm);
         let e = multiset.entry(p.key()).or_insert(0); *e += 1;
         let n = *e;
-        // the game registers every arising position: its reported count must be the true multiplicity
+        // ---- the game registers every arising position: its reported count must be the true multiplicity
         l.inc("game_api_counts_compared");
         let reported = game.board().max_seen_position_count() as u64;
         if reported != n as u64 {
-            ctx.violation(if reported > n as u64 { "c17:game-api-overcounts" } else { "c17:game-api-undercounts" }, &format!("{}: after {} plies through the Game API the position {} has occurred {} time(s) but the game's count reads {}", tagname, i + 1, p.to_fen(), n, reported), json!({"root_fen": root.to_fen(), "path": path_str(root, &path[..=i]), "occurrences": n, "reported": reported}));
+            ctx.violation(if reported > n as u64 { "c17:game-api-overcounts" } else { "c17:game-api-undercounts" }, &format!("{}: the position {} has occurred {} time(s) in this game but the game's count reads {}", tagname, p.to_fen(), n, reported), replay(&log, &played));
             return;
         }
+        // ---- a front end taking the move back: unregister the position (as seen by the side to move) and undo
+        if takeback && free_play_left == 0 && rng.below(5) == 0 && played.len() >= 2 {
+            let last = game.verif_move_history().last().cloned();
+            if let Some(mv) = last {
+                let irreversible = pm.piece == Pc::P || pm.captured.is_some();
+                let b = game.board_mut();
+                b.uncount_current_position();
+                b.toggle_turn();
+                if mv.undo(b).is_err() { return; }
+                *multiset.get_mut(&p.key()).unwrap() -= 1;
+                played.pop();
+                p = before;
+                log.push(format!("took {} back", p.uci(&pm)));
+                l.inc("moves_taken_back");
+                let back = game.board().max_seen_position_count() as u64;
+                let want_prev = *multiset.get(&p.key()).unwrap_or(&0) as u64;
+                if back != want_prev { ctx.violation("c17:count-wrong-after-take-back", &format!("{}: after a take-back the game's count for {} reads {}, it has occurred {} time(s)", tagname, p.to_fen(), back, want_prev), replay(&log, &played)); return; }
+                // after taking back a capture or pawn move, play something else: earlier positions can recur now
+                if irreversible { on_script = false; free_play_left = 14; l.inc("irreversible_moves_taken_back_then_other_play"); } else { i -= if on_script && i > 0 { 1 } else { 0 }; }
+                continue;
+            }
+        }
         if p.legal_moves().is_empty() { break; }
+        if ask_only_at_recurrences && n < 2 { continue; }
+        if ask_only_at_recurrences { l.inc("verdicts_asked_only_at_recurrences"); }
         let over = par::guarded(|| game.check_game_over_for_current_turn());
         l.inc("game_api_verdicts_compared");
         match over {
-            Err(msg) => { ctx.violation(&format!("c17:panic:{}", par::last_panic_location()), &format!("check_game_over_for_current_turn panicked: {}", msg), json!({"root_fen": root.to_fen(), "path": path_str(root, &path[..=i])})); return; }
+            Err(msg) => { ctx.violation(&format!("c17:panic:{}", par::last_panic_location()), &format!("check_game_over_for_current_turn panicked: {}", msg), replay(&log, &played)); return; }
             Ok(e) => {
                 if n >= 3 {
                     l.inc("game_api_third_occurrences");
-                    if !is_draw(&e) { ctx.violation("c17:game-api-no-draw-at-third-occurrence", &format!("{}: position {} has occurred {} times in a game played through the Game API but the game is not reported drawn ({:?})", tagname, p.to_fen(), n, e), json!({"root_fen": root.to_fen(), "path": path_str(root, &path[..=i]), "occurrences": n})); }
+                    if !is_draw(&e) { ctx.violation("c17:game-api-no-draw-at-third-occurrence", &format!("{}: position {} has occurred {} times in a game played through the Game API but the game is not reported drawn ({:?})", tagname, p.to_fen(), n, e), replay(&log, &played)); }
                     return;
                 } else if is_draw(&e) {
-                    ctx.violation("c17:game-api-draw-before-third-occurrence", &format!("{}: game reported drawn although no position has occurred three times (current position {}x, half-move clock {})", tagname, n, p.halfmove), json!({"root_fen": root.to_fen(), "path": path_str(root, &path[..=i])}));
+                    ctx.violation("c17:game-api-draw-before-third-occurrence", &format!("{}: game reported drawn although no position has occurred three times (current position {}x, half-move clock {})", tagname, n, p.halfmove), replay(&log, &played));
                     return;
                 }
             }
